@@ -63,6 +63,7 @@ func (e *Env) C(i int) bool            { k := fmt.Sprintf("C%d", i); e.Evs = app
 func (e *Env) L(i int) []struct{}      { k := fmt.Sprintf("L%d", i); e.Evs = append(e.Evs, k); return make([]struct{}, e.Lv[k]) }
 func (e *Env) S() string               { e.Evs = append(e.Evs, "S"); return e.Sv }
 func (e *Env) G()                      { e.Evs = append(e.Evs, "G") }
+func (e *Env) K(i int) string          { e.Evs = append(e.Evs, fmt.Sprintf("K%d", i)); return fmt.Sprintf("cls%d", i) }
 func (e *Env) M(i int) templ.Attributes {
 	e.Evs = append(e.Evs, fmt.Sprintf("M%d", i))
 	return templ.Attributes{fmt.Sprintf("data-M%d", i): "M1&v"}
@@ -475,6 +476,36 @@ func signature(prog []templang.Node, why string) string {
 	return "Document.TokenMismatch"
 }
 
+// evalSignature attributes an evaluation mismatch: a class expression inside a conditional attribute is the
+// known hoisting defect (the generator evaluates every class expression in front of the element).
 func evalSignature(prog []templang.Node) string {
+	found := false
+	var walk func(ns []templang.Node)
+	walk = func(ns []templang.Node) {
+		for _, n := range ns {
+			for _, a := range n.Attrs {
+				if a.A == "cond" {
+					for _, t := range append(append([]templang.Attr{}, a.Then...), a.Else...) {
+						if t.A == "class" {
+							found = true
+						}
+					}
+				}
+			}
+			walk(n.Kids)
+			walk(n.Els)
+			walk(n.Body)
+			for _, b := range n.Brs {
+				walk(b.Body)
+			}
+			for _, c := range n.Cases {
+				walk(c.Body)
+			}
+		}
+	}
+	walk(prog)
+	if found {
+		return "Evaluation.ClassExpressionInConditionalAttributeHoisted"
+	}
 	return "Evaluation.CountMismatch"
 }
